@@ -17,6 +17,7 @@
 #include <map>
 #include <set>
 #include <cstdio>
+#include <cstdlib>
 #include <functional>
 #include <unistd.h>
 #include "bookbuild.hpp"
@@ -40,7 +41,20 @@ struct BookSession {
     std::vector<U64> order;            // creation order (root first)
     std::vector<U64> pendList;         // elaboration pass: keys currently pending
     std::map<U64, Snap> prev;          // differential pass: last reported state
+    int reloads = 0;                   // differential pass: every second `reload` reads the append-only backup file instead
 };
+
+/** The differential pass gives its Book a backup file (Book::writeBackup appends a record for every node created and,
+ *  as the extendBook loop does, for every committed search result); "the backup file is a valid book file at all times". */
+static const std::string& backupPath() {
+    static std::string path;
+    if (path.empty()) {
+        char name[] = "/tmp/vbookbakXXXXXX";
+        int fd = mkstemp(name);
+        if (fd >= 0) { close(fd); path = name; std::atexit([]{ std::remove(backupPath().c_str()); }); }
+    }
+    return path;
+}
 
 static std::string linkStr(const std::vector<std::pair<int, U64>>& v) {
     std::string r;
@@ -84,6 +98,7 @@ public:
     static void setSearch(Book& b, U64 key, int cmove, int score, int time) {
         Move m; m.setFromCompressed((U16)cmove);
         b.getBookNode(key)->setSearchResult(b.bookData, m, score, time);
+        b.writeBackup(*b.getBookNode(key));                 // as Book::extendBook does right after setSearchResult
     }
     static void update(Book& b, U64 key) { b.getBookNode(key)->updateScores(b.bookData); }
     static std::vector<U64> keys(Book& b) {
@@ -423,7 +438,8 @@ static std::string handleBook(const std::vector<std::string>& a) {
         U64 rk = vToU64(a[4]);
         if (d < 0 || o < 0 || t < 0 || d > 100000 || o > 100000 || t > 100000) return "bad-op";
         D = BookSession();
-        D.book.reset(new Book("", (int)d, (int)o, (int)t));
+        { std::ofstream trunc(backupPath().c_str(), std::ios_base::out | std::ios_base::binary | std::ios_base::trunc); }
+        D.book.reset(new Book(backupPath(), (int)d, (int)o, (int)t));
         D.order.push_back(BookBuildTest::rootKey(*D.book));
         if (rk != D.order[0]) { D = BookSession(); return "key-mismatch"; }
         return diffReply(D, false);
@@ -467,7 +483,12 @@ static std::string handleBook(const std::vector<std::string>& a) {
         return diffReply(D, false);
     }
     if (op == "reload" && n == 1) {
-        if (!reloadBook(b)) return "io-error";
+        if (++D.reloads % 2 == 0 && !backupPath().empty()) {        // load cycle through the backup file
+            std::ostringstream sink;
+            std::streambuf* old = std::cout.rdbuf(sink.rdbuf());
+            b.readFromFile(backupPath());
+            std::cout.rdbuf(old);
+        } else if (!reloadBook(b)) return "io-error";
         return diffReply(D, false);
     }
     if (op == "import" && n >= 3) {
